@@ -325,3 +325,13 @@ def run(ctx):
     R.pop_fn, R.drain_fn, R.remove_fn
     r13_1(ctx, R)
     r13_2(ctx, R)
+    # service order inside one group is the FIFO order of the ready queue only if (a) a child is polled exclusively when
+    # its own entry is dequeued and (b) a merged stream that yielded goes back to the TAIL of that queue
+    import c01
+    import c05
+    c05.r5_1(ctx, R)
+    ctx.rule("R5.1", "see C05 R5.1 (shared): every child poll goes through the accessor applied to the index dequeued in the same "
+                     "iteration -- no child is polled out of queue order (e.g. a remembered 'hot' slot polled first)")
+    c01.r1_6(ctx, R)
+    ctx.rule("R1.6", "see C01 R1.6 (shared): a merged stream that yielded Some is re-queued (MARK of the same index, i.e. at the tail) "
+                     "before the next drain or return")
